@@ -45,6 +45,25 @@ fn local_case(p: &FsTzdbProvider, zone: &str, local_s: i64, fails: &mut Vec<Fail
 /// named transition and the queried instant, and answers do not depend on earlier queries.
 pub fn search(rng: &mut Rng, budget: u64, fails: &mut Vec<Failure>) {
     let p = FsTzdbProvider::default();
+    // before the first transition of the table local time type 0 is in force (RFC 8536 section 3.2): Local Mean Time for the
+    // IANA zones below (values of the zone files; unchanged across tzdata releases), in both directions
+    for (zone, lmt) in [("America/New_York", -17762i64), ("Europe/London", -75), ("Australia/Sydney", 36292), ("Asia/Kolkata", 21208), ("Asia/Tokyo", 33539), ("America/Toronto", -19052), ("Europe/Moscow", 9017)] {
+        for t_s in [-5_000_000_000i64, -4_000_000_000, -6_000_000_000] {
+            match catch_unwind(AssertUnwindSafe(|| p.get_named_tz_offset_nanoseconds(zone, t_s as i128 * 1_000_000_000))) {
+                Ok(Ok(r)) if r.offset == lmt => {}
+                Ok(Err(_)) => {}
+                other => fails.push(Failure { what: "offset before the first transition".into(), input: format!("{zone} epoch_s={t_s}"), expected: format!("{lmt} (local time type 0)"), observed: format!("{:?}", other.map(|x| x.map(|r| r.offset))) }),
+            }
+            if let Some(iso) = iso_of(t_s + lmt) {
+                match catch_unwind(AssertUnwindSafe(|| p.get_named_tz_epoch_nanoseconds(zone, iso))) {
+                    Ok(Ok(v)) if v.len() == 1 && v[0].as_i128() == t_s as i128 * 1_000_000_000 => {}
+                    Ok(Err(_)) => {}
+                    other => fails.push(Failure { what: "local -> instants before the first transition".into(), input: format!("{zone} local_s={}", t_s + lmt), expected: format!("[{t_s}]"), observed: format!("{:?}", other.map(|x| x.map(|v| v.iter().map(|e| e.as_i128() / 1_000_000_000).collect::<Vec<_>>()))) }),
+                }
+            }
+        }
+        if fails.len() >= 5 { return; }
+    }
     for k in 0..(budget / 20).max(200) {
         let zone = ZONES[(k % ZONES.len() as u64) as usize];
         let t_s = if k % 3 == 0 { rng.range(-2_000_000_000, 2_400_000_000) } else { rng.range(0, 1_900_000_000) } as i64;
